@@ -167,8 +167,13 @@ func (r *run) oblige(fname, kind, reach, cond, text string, pos token.Pos) *Obli
 	ob.Index = len(r.items)
 	r.items = append(r.items, item{kind: 1, ob: ob})
 	r.obls = append(r.obls, ob)
-	// assert-then-assume
-	r.assume(reach, cond)
+	// assert-then-assume (nothing follows a back edge or the final postconditions, so
+	// their facts would only burden later queries)
+	switch kind {
+	case "invariant-preserved", "decreases", "ensures", "ensures.fresh", "lemma":
+	default:
+		r.assume(reach, cond)
+	}
 	return ob
 }
 
@@ -1117,6 +1122,11 @@ func (r *run) loopHeader(fr *frame, li *loopInfo, st *State, reach string) strin
 			nv = Val{Term: r.fresh("lp_"+mangle(c.Comment), old.Sort), Sort: old.Sort}
 		}
 		st.cells[c] = nv
+		// a local slice that only ever receives freshly built values (nil, make, literals,
+		// append onto itself) owns its backing array on every iteration
+		if strings.HasPrefix(nv.Sort, "Slice_") && ownedCell(c, 0) {
+			r.assume(reach, fmt.Sprintf("(own_%s %s)", strings.TrimPrefix(nv.Sort, "Slice_"), nv.Term))
+		}
 	}
 	r.havocHeaps(st, eff)
 	// auto invariant for range loops
@@ -1130,7 +1140,7 @@ func (r *run) loopHeader(fr *frame, li *loopInfo, st *State, reach string) strin
 	env = r.loopEnv(fr, li, st)
 	if li.spec != nil {
 		for _, inv := range li.spec.Invariants {
-			r.assume(reach, r.specBool(env, inv.Expr, inv.Text))
+			r.assumeClause(env, reach, inv.Expr, inv.Text)
 		}
 		if li.spec.Decreases != nil {
 			li.measure = r.specTerm(env, li.spec.Decreases.Expr).Term
@@ -1209,4 +1219,65 @@ func (r *run) pushEdge(fr *frame, from, to *ssa.BasicBlock, cond string, st *Sta
 		return
 	}
 	ins[to] = append(ins[to], inEdge{cond: cond, st: st, from: from})
+}
+
+// ownedCell: every value ever stored into the cell is freshly built by this activation.
+func ownedCell(c *ssa.Alloc, depth int) bool {
+	if depth > 3 || c.Heap {
+		return false
+	}
+	refs := c.Referrers()
+	if refs == nil {
+		return false
+	}
+	for _, in := range *refs {
+		st, ok := in.(*ssa.Store)
+		if !ok || st.Addr != ssa.Value(c) {
+			continue
+		}
+		if !ownedValue(st.Val, c, depth) {
+			return false
+		}
+	}
+	return true
+}
+
+func ownedValue(v ssa.Value, self *ssa.Alloc, depth int) bool {
+	switch x := v.(type) {
+	case *ssa.Const:
+		return x.Value == nil
+	case *ssa.MakeSlice:
+		return true
+	case *ssa.Slice:
+		// slice literal: slicing a freshly allocated array
+		if a, ok := x.X.(*ssa.Alloc); ok {
+			_, isArr := a.Type().Underlying().(*types.Pointer).Elem().Underlying().(*types.Array)
+			return isArr
+		}
+		return false
+	case *ssa.Call:
+		if b, ok := x.Call.Value.(*ssa.Builtin); ok && b.Name() == "append" {
+			return ownedValue(x.Call.Args[0], self, depth)
+		}
+		return false
+	case *ssa.UnOp:
+		if x.Op == token.MUL {
+			if a, ok := x.X.(*ssa.Alloc); ok {
+				if a == self {
+					return true
+				}
+				return ownedCell(a, depth+1)
+			}
+		}
+		return false
+	}
+	return false
+}
+
+// assumeClause assumes a contract clause together with its ground instances at index 0.
+func (r *run) assumeClause(env *specEnv, reach string, x *SExpr, text string) {
+	r.assume(reach, r.specBool(env, x, text))
+	for _, inst := range zeroInstances(x) {
+		r.assume(reach, r.specBool(env, inst, text))
+	}
 }
